@@ -835,6 +835,12 @@ pub fn run_all(work: &Path) -> SysReport {
     let scs = scenarios();
     let mut jobs: Vec<(usize, bool)> = (0..scs.len()).flat_map(|i| [(i, true), (i, false)]).collect();
     jobs.sort_by_key(|(i, _)| !scs[*i].name.starts_with("timed_")); // the slow ones first
+    // random single-file projects: indices >= scs.len() (VERIF_SEED selects the sample)
+    let seed: u64 = std::env::var("VERIF_SEED").ok().and_then(|v| v.parse().ok()).unwrap_or(0);
+    let n_random: usize = if crate::deep() { 3000 } else { 300 };
+    for k in 0..n_random {
+        jobs.push((scs.len() + k, k % 2 == 0));
+    }
     let next = std::sync::atomic::AtomicUsize::new(0);
     let total = std::sync::Mutex::new(SysReport { expected_err: vec![], checked: 0, failures: vec![], base_pending: vec![] });
     std::thread::scope(|sp| {
@@ -845,7 +851,11 @@ pub fn run_all(work: &Path) -> SysReport {
                     break;
                 }
                 let (i, tn) = jobs[k];
-                let r = run_one(&work.join(format!("job{k}")), &scs[i], tn);
+                let r = if i >= scs.len() {
+                    run_random(&work.join(format!("job{k}")), seed, (i - scs.len()) as u64, tn)
+                } else {
+                    run_one(&work.join(format!("job{k}")), &scs[i], tn)
+                };
                 let mut t = total.lock().unwrap();
                 t.checked += r.checked;
                 t.expected_err.extend(r.expected_err);
@@ -874,6 +884,90 @@ pub fn run_all(work: &Path) -> SysReport {
     late_activity_check(work, &mut t);
     t.failures.truncate(60);
     t
+}
+
+// ---- random single-file projects (base phase only): lines drawn from an alphabet of directive and text shapes
+fn xorshift(state: &mut u64) -> u64 {
+    let mut x = *state;
+    x ^= x << 13;
+    x ^= x >> 7;
+    x ^= x << 17;
+    *state = x;
+    x
+}
+
+const LINE_ALPHABET: [&str; 26] = [
+    "", "text", "  indented text", "T1 and T2 here", "trailing space ", "T2T1",
+    "-TXTPP#run echo r1; echo r2", "-TXTPP#run printf 'no-nl'", "  # TXTPP#run echo ind",
+    "-TXTPP#write w1", "-w2", "-", "  # more", "  #",
+    "// TXTPP#temp t.txt", "// c1", "//",
+    "-TXTPP#tag T1", "+TXTPP#tag T2",
+    "-TXTPP#include inc.txt", "  -TXTPP#include inc_nonl.txt",
+    "-TXTPP#", "-TXTPP# comment", "TXTPP#write bare", "x TXTPP#unknown y", "\tTXTPP#after inc.txt",
+];
+
+pub fn random_source(seed: u64, k: u64) -> Vec<u8> {
+    let mut st = seed.wrapping_mul(0x9E3779B97F4A7C15).wrapping_add(k.wrapping_mul(0xD1B54A32D192ED03)) | 1;
+    for _ in 0..4 {
+        xorshift(&mut st);
+    }
+    let n = 1 + xorshift(&mut st) % 8;
+    let style = xorshift(&mut st) % 10; // 0-5 LF, 6-8 CRLF, 9 mixed
+    let final_nl = xorshift(&mut st) % 5 != 0;
+    let mut out = String::new();
+    for i in 0..n {
+        let l = LINE_ALPHABET[(xorshift(&mut st) % LINE_ALPHABET.len() as u64) as usize];
+        out.push_str(l);
+        if i + 1 < n || final_nl {
+            let crlf = match style {
+                0..=5 => false,
+                6..=8 => true,
+                _ => xorshift(&mut st) % 2 == 0,
+            };
+            out.push_str(if crlf { "\r\n" } else { "\n" });
+        }
+    }
+    out.into_bytes()
+}
+
+fn run_random(work: &Path, seed: u64, k: u64, tn: bool) -> SysReport {
+    let mut rep = SysReport { expected_err: vec![], checked: 1, failures: vec![], base_pending: vec![] };
+    let sc = Scenario {
+        name: "random_single_file",
+        files: vec![("a.txt.txtpp", random_source(seed, k)), ("inc.txt", s("i1\r\ni2\n")), ("inc_nonl.txt", s("n1\nn2"))],
+        inputs: vec!["."],
+        recursive: false,
+    };
+    let refroot = work.join("ref");
+    let root = work.join("real");
+    let exp = reference(&refroot, &sc, tn);
+    if !exp.ok {
+        rep.expected_err.push("random".to_string());
+    }
+    materialize(&root, &sc);
+    let initial = snapshot(&root);
+    let phase = format!("random project #{k} of seed {seed}: Build tn={tn}, fresh tree, 1 thread, compared with the reference interpreter");
+    match run_real(cfg(&root, &sc, Mode::Build, 1, tn)) {
+        Err(e) => rep.fail(&sc, &phase, e, &["C18", "C03"]),
+        Ok(v) => {
+            if v != exp.ok {
+                rep.fail(&sc, &phase, format!("verdict ok={} but the semantics prescribe ok={}", v, exp.ok), if v { &["C04"] } else { &["C01"] });
+            } else if exp.ok {
+                let got = snapshot(&root);
+                if let Some(d) = diff_trees(&exp.tree, &got, &|_| false) {
+                    let mut p: Vec<&'static str> = vec!["C01"];
+                    for x in diff_props(&exp.tree, &got, &initial, true) {
+                        if x != "C01" {
+                            p.push(x);
+                        }
+                    }
+                    rep.fail(&sc, &phase, d, &p);
+                }
+            }
+        }
+    }
+    let _ = fs::remove_dir_all(work);
+    rep
 }
 
 pub static PANICS: std::sync::atomic::AtomicUsize = std::sync::atomic::AtomicUsize::new(0);
